@@ -650,13 +650,22 @@ class Step:
         # give user helpful output if step will actually run or not.
         if self.description:
             description = context.get_formatted_value(self.description)
-            run_me = context.get_formatted_as_type(self.run_me, out_type=bool)
+            try:
+                run_me = context.get_formatted_as_type(self.run_me,
+                                                       out_type=bool)
 
-            skip_me = False
+                skip_me = False
 
-            if run_me:
-                skip_me = context.get_formatted_as_type(self.skip_me,
-                                                        out_type=bool)
+                if run_me:
+                    skip_me = context.get_formatted_as_type(self.skip_me,
+                                                            out_type=bool)
+            except Exception:
+                # run & skip are decided per iteration, inside the loops. The
+                # expressions can depend on values that only exist by then,
+                # like i or whileCounter. This is just the heads-up
+                # notification, so don't fail the step over it.
+                run_me = True
+                skip_me = False
 
             if run_me and not skip_me:
                 logger.notify(description)
